@@ -29,7 +29,7 @@ func vxSQLOpenDSN(driver, dsn string) (*sql.DB, error) {
 	if vxSQLHandler == nil {
 		return sql.Open(driver, dsn)
 	}
-	return vx.SQLOpen(vxSQLHandler), nil
+	return vx.SQLOpenDSN(vxSQLHandler, dsn), nil
 }
 
 // vxLockExecHook, when set, runs once immediately before the next acquisition of
@@ -91,6 +91,8 @@ var vxGhostWAL *vxGhostWALState
 type vxGhostRound struct {
 	orig, size int64
 	synced     bool
+	limited    bool   // the round was cut by the byte budget and did not reach the WAL end
+	before     func() // what happens while the round runs (the application appends to the WAL)
 }
 
 var vxGhostScript []vxGhostRound
@@ -119,7 +121,10 @@ func (db *DB) verifyAndSyncWithExecutor(ctx context.Context, checkpointing bool,
 	if len(vxGhostScript) > 0 {
 		r := vxGhostScript[0]
 		vxGhostScript = vxGhostScript[1:]
-		return syncResult{origWALSize: r.orig, newWALSize: r.size, synced: r.synced, syncedToWALEnd: true}, nil
+		if r.before != nil {
+			r.before()
+		}
+		return syncResult{origWALSize: r.orig, newWALSize: r.size, synced: r.synced, limited: r.limited, syncedToWALEnd: !r.limited}, nil
 	}
 	if g := vxGhostWAL; g != nil {
 		g.rounds++
@@ -225,6 +230,36 @@ type vxSQLEnv struct {
 	pageSize       int64
 	onCkpt         func(mode string) // environment effect of a checkpoint (WAL restart etc.)
 	ckptFrames     int64
+	// lock contention: each pooled connection waits for a lock as long as its own
+	// busy timeout says (set by the DSN it was opened with, or by a PRAGMA executed
+	// on that very connection); the application holds the write lock for appLockMs
+	connTimeout map[int]int64
+	appLockMs   int64
+	busySeen    int
+}
+
+// vxBusyTimeoutOf reads the busy timeout a data source name configures (modernc
+// sqlite: _pragma=busy_timeout(N)); 0 when it configures none.
+func vxBusyTimeoutOf(dsn string) int64 {
+	const key = "busy_timeout("
+	i := strings.Index(dsn, key)
+	if i < 0 {
+		return 0
+	}
+	var n int64
+	for _, ch := range dsn[i+len(key):] {
+		if ch < '0' || ch > '9' {
+			break
+		}
+		n = n*10 + int64(ch-'0')
+	}
+	return n
+}
+
+// vxNeedsWriteLock: statements that take SQLite's write lock.
+func vxNeedsWriteLock(q string) bool {
+	u := strings.ToUpper(strings.TrimSpace(q))
+	return strings.HasPrefix(u, "INSERT ") || strings.HasPrefix(u, "CREATE ") || strings.HasPrefix(u, "UPDATE ") || strings.HasPrefix(u, "DELETE ")
 }
 
 var vxSQLWhitelist = []string{
@@ -263,6 +298,33 @@ func (e *vxSQLEnv) handle(ev vx.SQLEvent) vx.SQLResult {
 	case "close":
 		e.closed = true
 		return vx.SQLResult{}
+	case "open":
+		if e.connTimeout == nil {
+			e.connTimeout = map[int]int64{}
+		}
+		e.connTimeout[ev.Conn] = vxBusyTimeoutOf(ev.SQL)
+		return vx.SQLResult{}
+	}
+	if u := strings.ToUpper(ev.SQL); strings.HasPrefix(u, "PRAGMA BUSY_TIMEOUT") && strings.Contains(u, "=") {
+		// a connection-local setting: it configures the connection it runs on
+		var n int64
+		for _, ch := range u[strings.Index(u, "=")+1:] {
+			if ch >= '0' && ch <= '9' {
+				n = n*10 + int64(ch-'0')
+			}
+		}
+		if e.connTimeout == nil {
+			e.connTimeout = map[int]int64{}
+		}
+		e.connTimeout[ev.Conn] = n
+		return vx.SQLResult{}
+	}
+	if e.appLockMs > 0 && vxNeedsWriteLock(ev.SQL) {
+		if e.connTimeout[ev.Conn] < e.appLockMs {
+			e.busySeen++
+			return vx.SQLResult{Err: "database is locked (5) (SQLITE_BUSY)"}
+		}
+		e.appLockMs = 0 // waited; the application's transaction has ended
 	}
 	ok := false
 	for _, w := range vxSQLWhitelist {
@@ -309,6 +371,12 @@ func vxSQLCanWrite(q string) bool {
 		}
 	}
 	if strings.HasPrefix(u, "PRAGMA ") {
+		// settings of the connection itself change nothing another connection can read
+		for _, local := range []string{"BUSY_TIMEOUT", "CACHE_SIZE", "TEMP_STORE", "MMAP_SIZE", "QUERY_ONLY", "READ_UNCOMMITTED", "FOREIGN_KEYS", "SYNCHRONOUS", "WAL_AUTOCHECKPOINT", "CACHE_SPILL", "ANALYSIS_LIMIT"} {
+			if strings.HasPrefix(strings.TrimSpace(u[len("PRAGMA "):]), local) {
+				return false
+			}
+		}
 		return strings.ContainsAny(u, "=(")
 	}
 	return true
